@@ -586,6 +586,14 @@ class Engine:
             return vpy(('module', e.id))
         if e.id in self.reg.module_globals:
             return self.reg.module_globals[e.id](self, st)
+        # a local that is assigned somewhere in the function but not on this path: an UnboundLocalError if the path is feasible - when the whole path condition
+        # (quantified facts included) is unsatisfiable the path does not exist
+        if any(isinstance(n, ast.Name) and n.id == e.id and isinstance(n.ctx, ast.Store) for n in ast.walk(self.fn)):
+            chk = z3.Solver()
+            chk.set('timeout', 3000)
+            chk.add(*st.pc)
+            if chk.check() == z3.unsat:
+                raise DeadPath()
         raise OutOfSubset('free name %s at line %d' % (e.id, e.lineno))
 
     def ev_Tuple(self, e, st):
